@@ -165,13 +165,19 @@ PROPS["C05"] = dict(
          "normal, smooth, unit, spikes, huge dynamic range, constant, checkerboard, origin-circle spike and 3 steps of "
          "inverse iteration through the direct solver (approximate lowest eigenvector); give (cached and uncached) and "
          "take, threads 1,2,3,5,16. 1 in 4 small grids (<=400 nodes) is probed: full matrix, entrywise symmetry of the "
-         "interior block and long double Cholesky. Non-trivial: non-circular geometry (non-zero mixed terms) or "
+         "interior block and long double Cholesky. 1 case in 5 is a small grid the smoothers accept, on which the line "
+         "blocks that SmootherGive/Take and (nr odd, >=3 circles) ExtrapolatedSmootherGive/Take actually factorise are "
+         "probed through sweeps with x=0, f=e_k (column k of the block inverse on k's line, non-Dirichlet unknowns): "
+         "inverse of the operator's principal sub-block, symmetric, positive definite (counter line_blocks_probed). "
+         "Non-trivial: non-circular geometry (non-zero mixed terms) or "
          "non-uniform grid. Distinct: (dims, geometry, profile, BC, #circles, threads, vector kinds, probed).",
-    technique="property-based testing (rapidcheck); algebraic-law oracle (bilinear symmetry, positivity) with rounding bounds, plus entrywise symmetry and Cholesky of probed matrices",
+    technique="property-based testing (rapidcheck); algebraic-law oracle (bilinear symmetry, positivity) with rounding bounds, plus entrywise symmetry and Cholesky of probed matrices and of the functionally probed smoother line blocks",
     level_text="For generated operators the bilinear form is evaluated through the real residual implementations: "
                "|<Ax,y>-<x,Ay>| must stay below a per-case rounding bound and <Ax,x> must be positive beyond it, also "
                "for adversarial vectors; on small grids the property is decided for that operator by probing the whole "
-               "matrix (entrywise symmetry, Cholesky). Exploration over generated operators.",
+               "matrix (entrywise symmetry, Cholesky), and the blocks the four smoothers factorise are probed functionally "
+               "and must be symmetric positive definite and equal to the operator's line blocks. Exploration over "
+               "generated operators.",
     level_note="Trusted: rounding-bound constant c=32 with magnitudes from the reference operator; long double Cholesky. "
                "A quadratic form within the rounding bound of zero is counted as inconclusive, not as a failure.",
     assumptions=["the mapping is a diffeomorphism on the grid (cases with det DF = 0 at a node are discarded and counted)"],
